@@ -14,7 +14,13 @@ def near_grid(L):
     return near(L)
 
 
+FAR = 2.0 ** 27          # offset of the 'far' regime (exactly representable with the lattice)
+FAR_K = 1000             # clocks of far states are encoded as FAR_K + k
+
+
 def _regime_size(N, rg):
+    if rg[0] == "far":
+        return sum(lattice.count_states(N, k, None) for k in range(rg[-2], rg[-1] + 1))
     if rg[0] == "near":
         return sum((1 << len(near_grid(L))) ** N for L in range(rg[-2], rg[-1] + 1))
     return sum(lattice.count_states(N, k, rg[1] if rg[0] == "bounded" else None)
@@ -42,6 +48,9 @@ def iter_task_states(task):
     rg = task["regime"]
     if rg[0] == "near":
         return _iter_near(task["N"], rg[-2], rg[-1], task["shard"], task["nshards"])
+    if rg[0] == "far":
+        return ((FAR_K + k, m) for k, m in lattice.iter_states(task["N"], rg[-2], rg[-1], None,
+                                                               task["shard"], task["nshards"]))
     d = rg[1] if rg[0] == "bounded" else None
     return lattice.iter_states(task["N"], rg[-2], rg[-1], d,
                                task["shard"], task["nshards"])
@@ -65,6 +74,10 @@ def trains_edges(k, masks):
     if k < 0:
         G = near_grid(-k)
         return [[G[i] for i in lattice.ticks(m)] for m in masks], [G[0], G[-1]]
+    if k >= FAR_K:
+        kk = k - FAR_K
+        return [[FAR + t for t in lattice.times(m)] for m in masks], \
+            [FAR + e for e in lattice.edges(kk)]
     return [lattice.times(m) for m in masks], lattice.edges(k)
 
 
@@ -125,7 +138,8 @@ def run_states(task, fn, prop, states=None):
         r.states += 1
         r.transitions += 1
         if lattice.nontrivial(masks):
-            r.sigs.add(lattice.signature(abs(k) * 3 if k < 0 else k, masks))
+            r.sigs.add(lattice.signature(abs(k) * 3 if k < 0 else (k - FAR_K if k >= FAR_K else k),
+                                         masks))
         try:
             fn(r, k, masks, task)
         except Exception as e:
